@@ -604,3 +604,31 @@ def histories(edges, want, limit, seed):
     rnd.shuffle(deep)
     chosen = shallow + deep[: max(0, limit - len(shallow))]
     return [path_to(key(e["pre"])) + [e] for e in chosen], len(uniq)
+
+
+def random_walks(edges, n, length, seed):
+    """Long random behaviours of the state graph (every step is a transition TLC generated), for replay."""
+    key = lambda st: json.dumps(st, sort_keys=True)
+    out_edges = {}
+    for e in edges:
+        out_edges.setdefault(key(e["pre"]), []).append(e)
+    init = None
+    for e in edges:
+        st = e["pre"]
+        if st["s"] == [1, 1] and st["cen"] == "base" and st["rot"] == 0 and st["fv"] == "given" and not st["ecache"] and st["rr"] == [1, 1]:
+            init = key(st)
+            break
+    rnd = random.Random(seed)
+    walks = []
+    for _ in range(n):
+        cur, walk = init, []
+        for _ in range(length):
+            outs = out_edges.get(cur, [])
+            if not outs:
+                break
+            good = [e for e in outs if e["ret"]["exc"] == "none"]
+            e = rnd.choice(good) if good and rnd.random() < 0.8 else rnd.choice(outs)
+            walk.append(e)
+            cur = key(e["post"])
+        walks.append(walk)
+    return walks
